@@ -47,3 +47,44 @@ theorem direct_partition_indep (states : List Int)
   rw [direct_blocks, direct_blocks, h]
 
 end Raptor.C12
+
+namespace Raptor.C12
+open Raptor.Interp
+
+/-! ## modified classical interpolation over a row partition
+
+Row `i` of `modClassical` is `modClassicalRow` of the global data (`allParts`: the three parts of every row, own rows
+computed locally, rows of strong fine neighbours on other ranks fetched from their owners — the row exchange of C03 —
+and the labels). `rangeBlocks`: the ranks' index ranges in rank order are `range n`; hence the concatenated per-rank
+results are the global operator for every contiguous partition. -/
+
+variable {K : Type} [Add K] [Mul K] [Div K] [Neg K] [Zero K] [One K] [LT K] [DecidableLT K]
+
+/-- what the ranks compute, rank by rank: rows `first … first + len − 1` -/
+def mapBlocks {β : Type} (f : Nat → β) : Nat → List Nat → List β
+  | _, [] => []
+  | first, len :: rest => (List.range len).map (fun k => f (first + k)) ++ mapBlocks f (first + len) rest
+
+theorem mapBlocks_eq {β : Type} (f : Nat → β) (first : Nat) (lens : List Nat) :
+    mapBlocks f first lens = (List.range lens.sum).map fun k => f (first + k) := by
+  induction lens generalizing first with
+  | nil => rfl
+  | cons len rest ih =>
+    rw [mapBlocks, ih, List.sum_cons, List.range_add, List.map_append, List.map_map]
+    congr 1
+    apply List.map_congr_left
+    intro k _
+    simp only [Function.comp]
+    rw [Nat.add_assoc]
+
+/-- **row partition**: for every list of block lengths summing to the number of rows, the ranks' rows in rank order are
+    the rows of the global modified classical operator -/
+theorem modClassical_blocks_eq_global (tiny : K → Bool) (states : List Int) (A S : List (List (Nat × K)))
+    (lens : List Nat) (h : lens.sum = A.length) :
+    mapBlocks (fun i => modClassicalRow tiny states ((A.zip S).zipIdx.map fun (r, i) => parts states i r.1 r.2) i) 0 lens
+      = modClassical tiny states A S := by
+  rw [mapBlocks_eq, h]
+  unfold modClassical
+  simp
+
+end Raptor.C12
